@@ -250,7 +250,8 @@ def run_case(sh, i, plan):
         specs.append(gen.scalar(rng.choice(["Decimal", "float", "str", "datetime", "int"])))
     bare_idx = []
     if rng.random() < 0.4:
-        for src in rng.sample(["list", "dict", "typing.Any", "object", "list[typing.Any]", "dict[str, typing.Any]", "tuple", "set", "typing.List", "typing.Mapping"], 2):
+        for src in rng.sample(["list", "dict", "typing.Any", "object", "list[typing.Any]", "dict[str, typing.Any]", "tuple", "set", "typing.List", "typing.Mapping",
+                                "tuple", "tuple[list, int]", "tuple[typing.Any, ...]", "tuple[dict, ...]", "list[tuple]", "dict[str, tuple]"], 2):
             specs.append(prog.spec("any", src))
             bare_idx.append(len(specs) - 1)
     prog.build()
@@ -334,9 +335,16 @@ def run_case(sh, i, plan):
                 else:
                     continue
             elif ti in bare_idx:
-                x = safe_copy(rng.choice(["[1, 2]", '{"a": [1, 2]}', "[[1], [2]]", b"[1, 2]", [1, [2]], {"a": {"b": 1}}, "(1, 2)", "{'k': [1]}", '{"a": 1}']))
-                sh.count("bare_container_ops")
-                ops.append({"kind": rng.choice(["unmarshal", "unmarshal", "marshal"]), "t": ti, "x": add(x)})
+                x0 = rng.choice(["[1, 2]", '{"a": [1, 2]}', "[[1], [2]]", b"[1, 2]", [1, [2]], {"a": {"b": 1}}, "(1, 2)", "{'k': [1]}", '{"a": 1}',
+                                 # text that loads to an immutable container holding mutable ones (python-literal tuples / frozen forms)
+                                 "([1, 2], 3)", b"({'a': 1}, {'b': 2})", "({7}, 8)", "([0], [1])", "(([1], 2), 3)", "{'k': ([1], 2)}", "[([1],), ([2],)]",
+                                 '{"t": [[1, 2], 3]}'])
+                kind = rng.choice(["unmarshal", "unmarshal", "marshal"])
+                # the same text twice (two distinct-but-equal objects where the input is mutable): a memoising loader is hit
+                for _rep in range(rng.choice([1, 2, 2])):
+                    sh.count("bare_container_ops")
+                    ops.append({"kind": kind, "t": ti, "x": add(safe_copy(x0))})
+                    lib_ops.append(len(ops) - 1)
             elif ti in tw_idx:
                 x = copy.deepcopy(rng.choice(["5", 5, "abc", 1.5, "1.5", True, "2020-01-01", "00000000-0000-0000-0000-000000000001", b"7"]))
                 ops.append({"kind": rng.choice(["unmarshal", "marshal"]), "t": ti, "x": add(x)})
